@@ -84,14 +84,16 @@ Definition pstep (st : pstate) (chr : N) (rest : list N) : paterr + (pstate * li
   else if chr =? 36 then keep (res ++ [Jump4])                  (* $ *)
   else if chr =? 42 then keep (res ++ [Ptr])                    (* * *)
   else if chr =? 123 then                                       (* { *)
+    if negb (Nat.ltb (p_barrier st) (length res)) then inl StackInvalid else   (* F42 repair: the jump belongs to a closed group or already has its brace *)
     match last_atom res with
-    | Some Jump1 => inr ({| p_res := set_last res (Push 1) ++ [Jump1]; p_save := p_save st; p_depth := p_depth st + 1; p_subs := p_subs st; p_pos := p_pos st; p_barrier := p_barrier st |}, rest, true)
-    | Some Jump4 => inr ({| p_res := set_last res (Push 4) ++ [Jump4]; p_save := p_save st; p_depth := p_depth st + 1; p_subs := p_subs st; p_pos := p_pos st; p_barrier := p_barrier st |}, rest, true)
-    | Some Ptr => inr ({| p_res := set_last res (Push 0) ++ [Ptr]; p_save := p_save st; p_depth := p_depth st + 1; p_subs := p_subs st; p_pos := p_pos st; p_barrier := p_barrier st |}, rest, true)
+    | Some Jump1 => let r := set_last res (Push 1) ++ [Jump1] in inr ({| p_res := r; p_save := p_save st; p_depth := p_depth st + 1; p_subs := p_subs st; p_pos := p_pos st; p_barrier := length r |}, rest, true)
+    | Some Jump4 => let r := set_last res (Push 4) ++ [Jump4] in inr ({| p_res := r; p_save := p_save st; p_depth := p_depth st + 1; p_subs := p_subs st; p_pos := p_pos st; p_barrier := length r |}, rest, true)
+    | Some Ptr => let r := set_last res (Push 0) ++ [Ptr] in inr ({| p_res := r; p_save := p_save st; p_depth := p_depth st + 1; p_subs := p_subs st; p_pos := p_pos st; p_barrier := length r |}, rest, true)
     | _ => inl StackInvalid
     end
   else if chr =? 125 then                                       (* } *)
-    if p_depth st =? 0 then inl StackError
+    (* F43 repair: an alternative can only close what it opened: the floor is the depth at the '(' of the innermost open group *)
+    if p_depth st <=? (match p_subs st with sb :: _ => sb_depth sb | [] => 0 end) then inl StackError
     else inr ({| p_res := res ++ [Pop]; p_save := p_save st; p_depth := p_depth st - 1; p_subs := p_subs st; p_pos := p_pos st; p_barrier := p_barrier st |}, rest, true)
   else if chr =? 40 then                                        (* ( *)
     let sb := {| sb_case := length res; sb_brks := []; sb_save := p_save st; sb_save_next := 0; sb_depth := p_depth st |} in
@@ -196,7 +198,23 @@ Definition pstep (st : pstate) (chr : N) (rest : list N) : paterr + (pstate * li
   else if (chr =? 32) || (chr =? 10) || (chr =? 13) || (chr =? 9) then keep res
   else inl UnknownChar.
 
-(* F40: the code as it stood.  At '|' and ')' the brace depth was reset to the depth at the '(' of the group
+(* F42 / F43: the '{' and '}' arms as they stood (repo 2b5fc2c, before cc9193c and a8f7b6c).  '{' looked at the last atom
+   only - no comparison with the barrier, the barrier stayed where it was - and '}' compared the depth with zero. *)
+Definition pstep_orig42 (st : pstate) (chr : N) (rest : list N) : paterr + (pstate * list N * bool) :=
+  let res := p_res st in
+  if chr =? 123 then                                            (* { *)
+    match last_atom res with
+    | Some Jump1 => inr ({| p_res := set_last res (Push 1) ++ [Jump1]; p_save := p_save st; p_depth := p_depth st + 1; p_subs := p_subs st; p_pos := p_pos st; p_barrier := p_barrier st |}, rest, true)
+    | Some Jump4 => inr ({| p_res := set_last res (Push 4) ++ [Jump4]; p_save := p_save st; p_depth := p_depth st + 1; p_subs := p_subs st; p_pos := p_pos st; p_barrier := p_barrier st |}, rest, true)
+    | Some Ptr => inr ({| p_res := set_last res (Push 0) ++ [Ptr]; p_save := p_save st; p_depth := p_depth st + 1; p_subs := p_subs st; p_pos := p_pos st; p_barrier := p_barrier st |}, rest, true)
+    | _ => inl StackInvalid
+    end
+  else if chr =? 125 then                                       (* } *)
+    if p_depth st =? 0 then inl StackError
+    else inr ({| p_res := res ++ [Pop]; p_save := p_save st; p_depth := p_depth st - 1; p_subs := p_subs st; p_pos := p_pos st; p_barrier := p_barrier st |}, rest, true)
+  else pstep st chr rest.                                       (* every other character: unchanged *)
+
+(* F40: the code as it stood (before cc1bd48).  At '|' and ')' the brace depth was reset to the depth at the '(' of the group
    (`depth = sub.depth;`) without comparing the two, so a '{' still open at the end of an alternative was accepted. *)
 Definition pstep_orig (st : pstate) (chr : N) (rest : list N) : paterr + (pstate * list N * bool) :=
   let res := p_res st in
@@ -224,7 +242,7 @@ Definition pstep_orig (st : pstate) (chr : N) (rest : list N) : paterr + (pstate
       | inr res2 => inr ({| p_res := res2; p_save := N.max (sb_save_next sb) (p_save st); p_depth := sb_depth sb; p_subs := subs; p_pos := p_pos st; p_barrier := length res2 |}, rest, true)
       end
     end
-  else pstep st chr rest.                                       (* every other character: unchanged *)
+  else pstep_orig42 st chr rest.                                (* every other character: as it stood then *)
 
 Definition is_redundant (a : atom) : bool :=
   match a with Skip _ | Rangext _ | Pop | Many _ => true | _ => false end.
@@ -260,8 +278,9 @@ Definition parse (input : list N) : res ((paterr * nat) + list atom) :=
   ploop (S (length input)) (length input)
         {| p_res := [Save 0]; p_save := 1; p_depth := 0; p_subs := []; p_pos := 0; p_barrier := 0 |} input.
 
-(* F40: the parser before the repair *)
-Fixpoint ploop_orig (fuel : nat) (total : nat) (st : pstate) (rest : list N) : res ((paterr * nat) + list atom) :=
+(* the same loop around an earlier version of the step function *)
+Fixpoint ploop_with (step : pstate -> N -> list N -> paterr + (pstate * list N * bool))
+    (fuel : nat) (total : nat) (st : pstate) (rest : list N) : res ((paterr * nat) + list atom) :=
   match fuel with
   | O => Fault OutOfFuel
   | S f =>
@@ -273,16 +292,21 @@ Fixpoint ploop_orig (fuel : nat) (total : nat) (st : pstate) (rest : list N) : r
            | [] => Ok (inr (trim (p_res st)))
            end
     | chr :: rest1 =>
-      match pstep_orig st chr rest1 with
+      match step st chr rest1 with
       | inl e => Ok (inl (e, p_pos st))
       | inr (st', rest2, update) =>
         let st'' := if update
                     then {| p_res := p_res st'; p_save := p_save st'; p_depth := p_depth st'; p_subs := p_subs st'; p_pos := (total - length rest2)%nat; p_barrier := p_barrier st' |}
                     else st' in
-        ploop_orig f total st'' rest2
+        ploop_with step f total st'' rest2
       end
     end
   end.
+Definition pinit : pstate := {| p_res := [Save 0]; p_save := 1; p_depth := 0; p_subs := []; p_pos := 0; p_barrier := 0 |}.
+(* F40: the parser before the repair *)
+Definition ploop_orig := ploop_with pstep_orig.
 Definition parse_orig (input : list N) : res ((paterr * nat) + list atom) :=
-  ploop_orig (S (length input)) (length input)
-        {| p_res := [Save 0]; p_save := 1; p_depth := 0; p_subs := []; p_pos := 0; p_barrier := 0 |} input.
+  ploop_orig (S (length input)) (length input) pinit input.
+(* F42 / F43: the parser before the two repairs *)
+Definition parse_orig42 (input : list N) : res ((paterr * nat) + list atom) :=
+  ploop_with pstep_orig42 (S (length input)) (length input) pinit input.
